@@ -108,14 +108,18 @@ fn peaks() {
     let mut run = |name: &str, build: &dyn for<'b> Fn(&Context<'b>) -> CN<'b>| {
         let redeem = Context::with_context(|ctx| build(&ctx).finalize_unpruned().expect("finalize"));
         let mut mac = BitMachine::for_program(&redeem).expect("limits");
-        let res = mac.exec(&redeem, &simplicity::jet::CoreEnv::new());
+        let res = std::panic::catch_unwind(std::panic::AssertUnwindSafe(|| mac.exec(&redeem, &simplicity::jet::CoreEnv::new())));
+        let panicked = res.is_err();
+        let res: Result<(), ()> = match res {
+            Ok(Ok(_)) => Ok(()),
+            _ => Err(()),
+        };
         let b = redeem.bounds();
         let (sw, tw) = (redeem.arrow().source.bit_width(), redeem.arrow().target.bit_width());
-        let (cap_bits, cap_frames) = mac.verif_capacity();
-        assert!(mac.verif_max_cells() <= cap_bits && mac.verif_max_frames() <= cap_frames);
         out.push(format!(
-            "{{\"name\":\"{}\",\"ok\":{},\"tree\":{},\"max_cells\":{},\"max_frames\":{},\"io_cells\":{},\"io_frames\":{},\"extra_cells\":{},\"extra_frames\":{},\"tight\":{}}}",
+            "{{\"name\":\"{}\",\"panicked\":{},\"ok\":{},\"tree\":{},\"max_cells\":{},\"max_frames\":{},\"io_cells\":{},\"io_frames\":{},\"extra_cells\":{},\"extra_frames\":{},\"tight\":{}}}",
             name,
+            panicked,
             res.is_ok(),
             tree(&redeem),
             mac.verif_max_cells(),
@@ -168,6 +172,38 @@ fn peaks() {
         let right = CN::comp(&CN::unit(ctx), &CN::comp(&CN::const_word(ctx, Word::u16(5)), &CN::unit(ctx)).unwrap()).unwrap();
         let d = CN::disconnect(&left, &Some(right)).unwrap();
         CN::comp(&CN::const_word(ctx, Word::u8(1)), &d).unwrap()
+    });
+    // asymmetric shapes: the *right* child is the heavy one
+    run("disconnect(pair(unit,unit),comp(w8,iden))", &|ctx| {
+        let left = CN::pair(&CN::unit(ctx), &CN::unit(ctx)).unwrap();
+        let right = CN::comp(&CN::const_word(ctx, Word::u8(0xa5)), &CN::iden(ctx)).unwrap();
+        CN::disconnect(&left, &Some(right)).unwrap()
+    });
+    run("comp(disconnect(pair(unit,unit),comp(w16,iden)),unit)", &|ctx| {
+        let left = CN::pair(&CN::unit(ctx), &CN::unit(ctx)).unwrap();
+        let right = CN::comp(&CN::const_word(ctx, Word::u16(0xa5a5)), &CN::iden(ctx)).unwrap();
+        CN::comp(&CN::disconnect(&left, &Some(right)).unwrap(), &CN::unit(ctx)).unwrap()
+    });
+    run("comp(unit,comp(w32,unit))", &|ctx| {
+        CN::comp(&CN::unit(ctx), &CN::comp(&CN::const_word(ctx, Word::u32(1)), &CN::unit(ctx)).unwrap()).unwrap()
+    });
+    run("pair(unit,comp(w16,iden))", &|ctx| {
+        CN::pair(&CN::unit(ctx), &CN::comp(&CN::const_word(ctx, Word::u16(1)), &CN::iden(ctx)).unwrap()).unwrap()
+    });
+    run("pair(comp(w16,iden),unit)", &|ctx| {
+        CN::pair(&CN::comp(&CN::const_word(ctx, Word::u16(1)), &CN::iden(ctx)).unwrap(), &CN::unit(ctx)).unwrap()
+    });
+    for bit in 0..2u8 {
+        run(if bit == 0 { "case-left(light)" } else { "case-right(heavy)" }, &|ctx| {
+            let sel = CN::pair(&CN::const_word(ctx, Word::u1(bit)), &CN::unit(ctx)).unwrap();
+            let heavy = CN::comp(&CN::unit(ctx), &CN::comp(&CN::const_word(ctx, Word::u64(9)), &CN::unit(ctx)).unwrap()).unwrap();
+            CN::comp(&sel, &CN::case(&CN::unit(ctx), &heavy).unwrap()).unwrap()
+        });
+    }
+    run("take/drop/injl chain", &|ctx| {
+        let inner = CN::comp(&CN::const_word(ctx, Word::u8(3)), &CN::unit(ctx)).unwrap();
+        let p = CN::pair(&CN::iden(ctx), &CN::iden(ctx)).unwrap();
+        CN::comp(&p, &CN::take(&CN::injl(&CN::drop_(&CN::take(&inner))))).unwrap()
     });
     println!("{{\"programs\":[{}]}}", out.join(","));
 }
@@ -291,10 +327,78 @@ fn jet_decode_in<J: simplicity::jet::Jet>(bits: &str) {
     }
 }
 
-fn jet_check_in<J: simplicity::jet::Jet + PartialEq + Copy>(all: &[J], name: &str) {
+fn code_of<J: simplicity::jet::Jet>(j: &J) -> String {
+    use simplicity::BitWriter;
+    let mut v = Vec::new();
+    let n = {
+        let w: &mut dyn std::io::Write = &mut v;
+        let mut bw = BitWriter::new(w);
+        let n = j.encode(&mut bw).unwrap();
+        bw.flush_all().unwrap();
+        n
+    };
+    (0..n).map(|i| if v[i / 8] >> (7 - i % 8) & 1 == 1 { '1' } else { '0' }).collect()
+}
+
+fn jet_check_in<J: simplicity::jet::Jet + PartialEq + Copy>(all: &[J], name: &str, core: bool) {
+    use simplicity::jet::{Elements, Jet};
     let j = all.iter().find(|j| j.to_string() == name).expect("jet name");
     let row = jet_rows(std::slice::from_ref(j));
-    println!("{}", &row[1..row.len() - 1]);
+    let mut extra = String::new();
+    if core {
+        // the Elements namesake: same name, same type names, code = 0 || core code
+        let ok = match Elements::ALL.iter().find(|e| e.to_string() == name) {
+            Some(e) => {
+                e.source_ty().0 == j.source_ty().0
+                    && e.target_ty().0 == j.target_ty().0
+                    && code_of(e) == format!("0{}", code_of(j))
+            }
+            None => false,
+        };
+        extra = format!(",\"namesake_ok\":{}", ok);
+    }
+    println!("{}{}}}", &row[1..row.len() - 2], extra);
+}
+
+/// Programs whose extra-cell bound is saturated (>= 2^64 needed) and whose own
+/// source/target widths are small but non-zero: must be refused by for_program.
+fn limits_family() {
+    let mut rows = vec![];
+    for variant in 0..2 {
+        let r = std::panic::catch_unwind(|| {
+            let redeem = Context::with_context(|ctx| {
+                let mut x = CN::injl(&CN::unit(&ctx));
+                for _ in 0..64 {
+                    x = CN::pair(&x, &x).unwrap();
+                }
+                let c = CN::comp(&CN::injl(&CN::unit(&ctx)), &CN::unit(&ctx)).unwrap();
+                let l = CN::pair(&x, &c).unwrap();
+                let prog = if variant == 0 {
+                    // 1 -> 1+1
+                    CN::comp(&l, &CN::injl(&CN::unit(&ctx))).unwrap()
+                } else {
+                    // 1 -> 2^8 x 1
+                    CN::pair(&CN::const_word(&ctx, Word::u8(1)), &CN::comp(&l, &CN::unit(&ctx)).unwrap()).unwrap()
+                };
+                prog.finalize_unpruned().expect("finalize")
+            });
+            let b = redeem.bounds();
+            match BitMachine::for_program(&redeem) {
+                Ok(mut m) => {
+                    let e = std::panic::catch_unwind(std::panic::AssertUnwindSafe(|| {
+                        m.exec(&redeem, &simplicity::jet::CoreEnv::new()).is_ok()
+                    }));
+                    format!("{{\"extra_cells\":{},\"refused\":false,\"exec_panicked\":{}}}", b.extra_cells, e.is_err())
+                }
+                Err(_) => format!("{{\"extra_cells\":{},\"refused\":true,\"exec_panicked\":false}}", b.extra_cells),
+            }
+        });
+        rows.push(match r {
+            Ok(s) => s,
+            Err(_) => "{\"panicked_before_exec\":true,\"refused\":false}".to_string(),
+        });
+    }
+    println!("{{\"programs\":[{}]}}", rows.join(","));
 }
 
 fn main() {
@@ -303,6 +407,7 @@ fn main() {
         "budget" => budget(&args[1..]),
         "convert" => convert(&args[1..]),
         "peaks" => peaks(),
+        "limits_family" => limits_family(),
         "jets" => jets(),
         "jet_decode" => match args[1].as_str() {
             "Core" => jet_decode_in::<simplicity::jet::Core>(&args[2]),
@@ -310,9 +415,9 @@ fn main() {
             _ => jet_decode_in::<simplicity::jet::Bitcoin>(&args[2]),
         },
         "jet_check" => match args[1].as_str() {
-            "Core" => jet_check_in(&simplicity::jet::Core::ALL, &args[2]),
-            "Elements" => jet_check_in(&simplicity::jet::Elements::ALL, &args[2]),
-            _ => jet_check_in(&simplicity::jet::Bitcoin::ALL, &args[2]),
+            "Core" => jet_check_in(&simplicity::jet::Core::ALL, &args[2], true),
+            "Elements" => jet_check_in(&simplicity::jet::Elements::ALL, &args[2], false),
+            _ => jet_check_in(&simplicity::jet::Bitcoin::ALL, &args[2], false),
         },
         "bounds_overflow" => bounds_overflow(&args[1]),
         _ => {
